@@ -366,10 +366,11 @@ TRANSLATE_BUF = {
     "theorems": {"len": "FBV.BufGen.gen_len_eq", "is_empty": "FBV.BufGen.gen_is_empty_eq", "clear": "FBV.BufGen.gen_clear_eq",
                  "readable": "FBV.BufGen.gen_readable_eq", "writable": "FBV.BufGen.gen_writable_eq", "read_bytes": "FBV.BufGen.gen_read_bytes_eq",
                  "wrote": "FBV.BufGen.gen_wrote_eq", "shift": "FBV.BufGen.gen_shift_eq", "try_read_bytes": "FBV.BufGen.gen_try_read_bytes_eq",
-                 "read_all": "FBV.BufGen.gen_read_all_eq"},
-    "deps": {"read_bytes": ["len"], "try_read_bytes": ["len", "read_bytes"], "read_all": ["len", "read_bytes"]},
+                 "read_all": "FBV.BufGen.gen_read_all_eq", "read_byte": "FBV.BufGen.gen_read_byte_eq", "try_read_byte": "FBV.BufGen.gen_try_read_byte_eq"},
+    "deps": {"read_bytes": ["len"], "try_read_bytes": ["len", "read_bytes"], "read_all": ["len", "read_bytes"], "read_byte": ["read_bytes"],
+             "try_read_byte": ["is_empty", "read_byte"]},
 }
-BUF_TECH = ("Lean 4 theorems over a hand-written model whose index-manipulating core (10 FixedBuf methods) is ALSO re-translated from the Rust source "
+BUF_TECH = ("Lean 4 theorems over a hand-written model whose index-manipulating core (12 FixedBuf methods) is ALSO re-translated from the Rust source "
             "on every run (tools/rs2lean_buf.py; translated = model method proved for every state) + differential correspondence check")
 BUF_TRUST = ["tools/rs2lean_buf.py (Rust-subset parser / translator for &mut self methods into the state-and-panic monad of FBV/Model/Buf.lean; "
              "field reads take a fresh snapshot at their evaluation point; assert! = panic; copy_within(a..b, 0) = slice + writeAt)"]
@@ -377,10 +378,10 @@ for _p in ("C01", "C03", "C04"):
     PROPS[_p]["translate_buf"] = TRANSLATE_BUF
     PROPS[_p]["technique"] = BUF_TECH
     PROPS[_p]["trusted_extra"] = PROPS[_p].get("trusted_extra", []) + BUF_TRUST
-    PROPS[_p]["level_text"] = PROPS[_p]["level_text"] + (" Additionally, on every run ten index-manipulating FixedBuf methods (len, is_empty, clear, readable, writable, "
-        "read_bytes, wrote, shift, try_read_bytes, read_all) are re-translated from lib.rs and proved equal to the model methods step is built from, on every state "
+    PROPS[_p]["level_text"] = PROPS[_p]["level_text"] + (" Additionally, on every run twelve index-manipulating FixedBuf methods (len, is_empty, clear, readable, writable, "
+        "read_bytes, wrote, shift, try_read_bytes, read_all, read_byte, try_read_byte) are re-translated from lib.rs and proved equal to the model methods step is built from, on every state "
         "satisfying the struct invariant, both profiles (BufGen.gen_*_eq); a method outside the translator's subset is recorded as 'translation unavailable'.")
-    PROPS[_p]["tie"] = "TRANSLATION of the index core (10 methods re-translated and proved equal to the model on every run) + " + PROPS[_p].get("tie", "T1")
+    PROPS[_p]["tie"] = "TRANSLATION of the index core (12 methods re-translated and proved equal to the model on every run) + " + PROPS[_p].get("tie", "T1")
 
 
 PROPS["C20"] = {
